@@ -164,7 +164,8 @@ Proof.
   - pose proof (tinv_ack_est t h Hi Hh Hack ltac:(rewrite Hst; reflexivity)) as H2.
     destruct (ack_est t h) as [t2 r]. cbn [fst] in H2.
     destruct (is_fin_acked t2); [exact H2|]. destruct r; exact H2.
-  - cbn [fst]. apply tinv_set_time_wait. apply tinv_enqueue; [exact Hi|].
+  - destruct (c_fin (h_ctl h)); cbv zeta; cbn [fst]; [|exact Hi].
+    apply tinv_set_time_wait. apply tinv_enqueue; [exact Hi|].
     destruct Hi. hok_tac.
 Qed.
 
